@@ -131,7 +131,17 @@ theorem C16_payoff_formula (s : DState) (p : Position) :
       simp only [hlt, if_true, hnl, if_false, deliverOption, payoffRatio, deliverFee, exact_num, NumCtx.exact_mul,
         NumCtx.exact_sub, NumCtx.exact_div, exact_fsub, exact_toF, exact_fdiv, Bool.if_true_left, if_true, hc.1, hc.2.2.1, hc.2.2.2.1,
         ite_self]
-      split <;> simp_all
+      split
+      · rename_i x gf heq
+        split at heq
+        · simp at heq
+        · rename_i hgf
+          simp only [Option.some.injEq] at heq
+          rw [← heq]; simp [hgf]
+      · rename_i x heq
+        split at heq
+        · rename_i hgf; simp [hgf]
+        · simp at heq
     · simp [hlt]
   | put =>
     simp only []
@@ -140,7 +150,17 @@ theorem C16_payoff_formula (s : DState) (p : Position) :
       simp only [hgt, hlt, if_true, deliverOption, payoffRatio, deliverFee, exact_num, NumCtx.exact_mul,
         NumCtx.exact_sub, NumCtx.exact_div, exact_fsub, exact_toF, exact_fdiv, hc.1, hc.2.2.1, hc.2.2.2.1, ite_self,
         Bool.false_eq_true, if_false]
-      split <;> simp_all
+      split
+      · rename_i x gf heq
+        split at heq
+        · simp at heq
+        · rename_i hgf
+          simp only [Option.some.injEq] at heq
+          rw [← heq]; simp [hgf]
+      · rename_i x heq
+        split at heq
+        · rename_i hgf; simp [hgf]
+        · simp at heq
     · have hgt : ¬ p.strike > (settleQuote s p.name).under := hlt
       simp [hgt, hlt]
 
@@ -160,7 +180,7 @@ theorem C16_payoff_nonneg (c : TokenCfg) (s : DState) (p : Position) : 0 ≤ net
   unfold netPayoff
   split
   · rename_i gf h
-    unfold paidOf at h
+    simp only [paidOf] at h
     split at h
     · simp at h
     · unfold deliverOption at h
